@@ -54,7 +54,9 @@ class P(Prop):
                                  "rated": Fraction(rng.randint(8, 24) * 250)})
                 mech.append({"name": f"prop{j}", "cls": "propeller", "line": j + 1, "rated": Fraction(12000), "eff": [1.0]})
                 full = [{"mixed": rng.random() < 0.35, "no-full": False, "all-full": True}[style] for _ in range(n)]
-                load = [Fraction(rng.randint(1, 28), 32) * rated_pti if f else Fraction(rng.randint(8, 40), 8) * 250 for f in full]
+                # full-PTI loads up to the rating itself (the electrical demand, load / efficiency, then exceeds the rating)
+                load = [Fraction(rng.choice([rng.randint(1, 28), rng.randint(1, 28), rng.randint(29, 32)]), 32) * rated_pti if f
+                        else Fraction(rng.randint(8, 40), 8) * 250 for f in full]
                 machines.append({"name": name, "line": j + 1, "full": full, "load": load,
                                  "e0": [Fraction(rng.randint(-28, 28), 32) * rated_pti for _ in range(n)]})
             # one machine that SHARES THE LOAD with the sources on some steps (PTO in equal-sharing mode, flag 0) and follows its
